@@ -23,6 +23,7 @@ type C08Case struct {
 	Neg    bool   `json:"neg,omitempty"`
 	Fwd    bool   `json:"fwd,omitempty"`
 	FIFO   bool   `json:"fifo,omitempty"`
+	Amb    int    `json:"amb,omitempty"`
 	Prep   string `json:"prep,omitempty"` // history before the call: "" | remove | reset | insertfront (re-allocated backing arrays)
 	Method string `json:"method,omitempty"`
 	I      int    `json:"i,omitempty"`
@@ -134,6 +135,7 @@ func runC08(c C08Case) (Stats, error) {
 func runC08Grid(c C08Case) (st Stats, err error) {
 	mk := func() (stackage.Stack, *ListModel) {
 		s := newStackOfKind(c.Kind, c.Cap)
+		ApplyAmbient(s, c.Amb&^AmbPushOK)
 		m := &ListModel{Cap: c.Cap}
 		switch c.Prep {
 		case "remove":
@@ -519,6 +521,7 @@ func genC08(t *rapid.T, tier Tier) C08Case {
 			c.Cap = L + rapid.IntRange(0, 2).Draw(t, "capextra")
 		}
 		c.Prep = rapid.SampledFrom([]string{"", "remove", "reset", "insertfront"}).Draw(t, "prep")
+		c.Amb = drawAmbient(t, false)
 		c.Method = intParamMethods[rapid.IntRange(0, len(intParamMethods)-1).Draw(t, "method")].Name
 		pick := func(label string) int {
 			switch rapid.IntRange(0, 5).Draw(t, label+"class") {
